@@ -27,12 +27,13 @@ NthAtoms(U, full) ==
     \cup { [op |-> "nth", a |-> 0, b |-> 2, rev |-> rv, of |-> [op |-> "not", sub |-> k]] : rv \in BOOLEAN, k \in KindAtoms(U, 1) }
     \cup (IF ~full THEN {} ELSE { [op |-> "nth", a |-> 2, b |-> 1, rev |-> FALSE, of |-> [op |-> "not", sub |-> k]] : k \in RegexAtoms(U) })
 
-\* `range` atoms: the positions of a few nodes of the universe's first tree (line, column in characters); on the other
-\* trees of the universe the same positions select other nodes or none
+\* `range` atoms: the positions of a few nodes of every tree of the universe (line, column in characters); on the
+\* other trees the same positions select other nodes or none
 RangeAtoms(U) ==
-    LET T == U.trees[1].T
-        ns == { n \in 1..Len(T) : n \in {2, 3, 5, Len(T)} } IN
-    { [op |-> "range", sl |-> T[n].sl, sc |-> T[n].scc, el |-> T[n].el, ec |-> T[n].ecc] : n \in ns }
+    UNION { LET T == U.trees[i].T
+                ns == { n \in 1..Len(T) : n \in {2, 3, 5, Len(T) - 1, Len(T)} } IN
+            { [op |-> "range", sl |-> T[n].sl, sc |-> T[n].scc, el |-> T[n].el, ec |-> T[n].ecc] : n \in ns }
+          : i \in 1..Len(U.trees) }
 
 Atoms(U, full) ==
     KindAtoms(U, IF full THEN 5 ELSE 2) \cup PatAtoms(U, IF full THEN 5 ELSE 2) \cup RegexAtoms(U) \cup NthAtoms(U, full)
